@@ -28,7 +28,7 @@ func init() {
 			{"C01/state-owner", "Processor.state written only by NewProcessor/Process; one Process per processor; client packets read only via Tunnel.Read<-Process", c01StateOwner},
 			{"C01/typestate", "every (state, packet type, path) of the loop agrees with the MS-TSGU phase table", c01Typestate},
 			{"C01/dial-owner", "the only first-party network dials are the one in Process, the KDC proxy's and the unix-socket dials of the auth client", c01DialOwner},
-			{"C01/wiring", "main stores CheckHost on every path before registering the gateway handler; CheckPAACookie and the session wrapper under the token-auth switch", c01Wiring},
+			{"C01/wiring", "main stores CheckHost on every path before registering the gateway handler; CheckPAACookie and the session wrapper under the token-auth switch", func(c *Ctx) { wiringRule(c, "C01/wiring") }},
 		},
 	})
 }
@@ -536,8 +536,7 @@ func confFieldPath(v ssa.Value) (string, bool) {
 	return strings.Join(path, "."), true
 }
 
-func c01Wiring(c *Ctx) {
-	rule := "C01/wiring"
+func wiringRule(c *Ctx, rule string) {
 	mainFn := c.Fn("cmd/rdpgw", "main")
 	// the Gateway whose bound method is registered
 	var gw ssa.Value
